@@ -646,7 +646,12 @@ CMP_CALLS = {"std::cmp::PartialOrd::lt": "Lt", "std::cmp::PartialOrd::le": "Le",
              "std::cmp::PartialOrd::ge": "Ge", "std::cmp::PartialEq::eq": "Eq", "std::cmp::PartialEq::ne": "Ne"}
 
 
-def norm_bool(sym, value=True):
+def norm_bool_named(sym, value=True):
+    """norm_bool with user variables printed by name (for rules that talk about `window_start`, `cutoff`, ...)."""
+    return norm_bool(sym, value, named=True)
+
+
+def norm_bool(sym, value=True, named=False):
     """Normalise a boolean sym to (atom_string, value). Comparisons are canonicalised to `a<b` / `a==b`
     atoms so that `a >= b` reads as (a<b, False) and `b > a` as (a<b, True)."""
     s = strip(sym)
@@ -672,7 +677,7 @@ def norm_bool(sym, value=True):
         op = CMP_CALLS.get(s[4]) or CMP_CALLS.get(s[1])
         a, b = s[2]
     if op:
-        fa, fb = fmt_sym(a), fmt_sym(b)
+        fa, fb = fmt_sym(a, named=named), fmt_sym(b, named=named)
         if op == "Lt":
             return ("%s < %s" % (fa, fb), value)
         if op == "Ge":
@@ -685,7 +690,7 @@ def norm_bool(sym, value=True):
         if op == "Eq":
             return ("%s == %s" % (x, y), value)
         return ("%s == %s" % (x, y), not value)
-    return (fmt_sym(s), value)
+    return (fmt_sym(s, named=named), value)
 
 
 def decision_table(fn, start=0, stop_blocks=None, cap=4000):
@@ -1101,8 +1106,17 @@ def eval_bool(sym, atom_of, asg):
     s = strip(sym)
     n = atom_of(s)
     if n is not None:
+        if isinstance(n, tuple):          # (name, negated)
+            v = asg.get(n[0])
+            return None if v is None else (v != n[1])
         return asg.get(n)
     k = s[0]
+    if k == "phi":
+        # a materialised condition whose alternatives agree under this assignment
+        vals = set(eval_bool(a, atom_of, asg) for a in s[1])
+        if len(vals) == 1:
+            return vals.pop()
+        return None
     if k == "const" and isinstance(s[2], bool):
         return s[2]
     if k == "un" and s[1] == "Not":
@@ -1126,3 +1140,52 @@ def eval_bool(sym, atom_of, asg):
     if k == "cast":
         return eval_bool(s[1], atom_of, asg)
     return None
+
+
+
+def predicate_table(fn, names, expected, cap=4000):
+    """Decide a small boolean predicate function against `expected`.
+    names: {normalised named atom string -> short name}; expected(asg)->bool.
+    Returns (ok, problems[list of str], n_rows)."""
+    import itertools
+    rows, capped = decision_rows(fn, cap=cap)
+    if capped:
+        return None, ["decision table capped"], 0
+
+    def atom_of(s):
+        a, v = norm_bool_named(s, True)
+        if a in names:
+            return (names[a], not v)
+        return None
+    problems = []
+    allnames = sorted(set(names.values()))
+    for conds, ret in rows:
+        if ret is None:
+            continue
+        asg = {}
+        for (c, o) in conds:
+            if isinstance(o, bool):
+                a, v = norm_bool_named(c, o)
+                if a in names:
+                    asg[names[a]] = v
+        free = [n for n in allnames if n not in asg]
+        for combo in itertools.product([False, True], repeat=len(free)):
+            full = dict(asg)
+            full.update(zip(free, combo))
+            # a row is only feasible for completions under which its materialised conditions agree
+            feasible = True
+            for (c, o) in conds:
+                if isinstance(o, bool):
+                    v = eval_bool(c, atom_of, full)
+                    if v is not None and v != o:
+                        feasible = False
+            if not feasible:
+                continue
+            got = eval_bool(ret, atom_of, full)
+            if got is None:
+                problems.append("returns `%s`, which does not reduce to the named comparisons" % fmt_sym(ret, maxdepth=6, named=True)[:120])
+                break
+            if got != expected(full):
+                problems.append("under %s it returns %s, expected %s" % (full, got, expected(full)))
+                break
+    return (not problems), problems, len(rows)
